@@ -370,7 +370,29 @@ func Pair(r *rng.R, c dec.Ctx, op string) (dec.D, dec.D) {
 		}
 		x = WithAdj(xn, xc, t)
 		y = WithAdj(yn, yc, clampAdj(t-gap))
-		if (op == "add" || op == "sub") && r.Chance(1, 8) {
+		if (op == "add" || op == "sub") && r.Chance(1, 10) {
+			// a power of ten and an operand far below it, at the place where the
+			// rounding of the difference is decided: if the signs make it a
+			// subtraction the leading digit cancels and the result gains a digit
+			// position, so the decisive digit lies one place further down than a
+			// sticky-digit shortcut sized from the larger operand expects
+			j := int64(r.Intn(int(c.P)))
+			x = WithAdj(xn, new(big.Int).Set(dec.Pow10(j)), t)
+			var ls string
+			switch r.Intn(3) {
+			case 0:
+				ls = Digits(r, int64(1+r.Intn(5)))
+			case 1:
+				ls = TieDigits(r, 1, int64(1+r.Intn(6)))[1:] + Digits(r, int64(r.Intn(140)))
+			default:
+				ls = string("456789"[r.Intn(6)]) + Digits(r, int64(60+r.Intn(90)))
+			}
+			lc, _ := new(big.Int).SetString(ls, 10)
+			if lc == nil || lc.Sign() == 0 {
+				lc = big.NewInt(5)
+			}
+			y = WithAdj(yn, lc, clampAdj(t-c.P-1+[]int64{-1, 0, 0, 0, 1}[r.Intn(5)]))
+		} else if (op == "add" || op == "sub") && r.Chance(1, 8) {
 			// cancellation: y = x with a perturbation in a far digit (or none)
 			y = x.Clone()
 			y.Neg = (op == "add") != x.Neg
